@@ -122,7 +122,12 @@ impl Check for C01 {
     fn generate(&self, d: &mut Dec, thorough: bool) -> Case {
         let p = GenParams::for_tier(thorough);
         let add_patterns = d.chance(64);
-        let mut mode = gen::gen_mode(d, &p, "INITIAL");
+        let large = d.chance(p.large_per_256);
+        let mut mode = if large {
+            gen::gen_large_mode(d, &p, "INITIAL")
+        } else {
+            gen::gen_mode(d, &p, "INITIAL")
+        };
         if add_patterns {
             for (i, q) in mode.pats.iter_mut().enumerate() {
                 q.tt = i;
@@ -134,8 +139,14 @@ impl Check for C01 {
             ..Case::default()
         };
         let model = case.model();
-        for _ in 0..8 {
-            case.inputs.push(gen::gen_input(d, &model, p.max_input_chars));
+        if large {
+            for _ in 0..2 {
+                case.inputs.push(gen::gen_long_input(d, &model, 40, 300));
+            }
+        } else {
+            for _ in 0..8 {
+                case.inputs.push(gen::gen_input(d, &model, p.max_input_chars));
+            }
         }
         case
     }
@@ -166,6 +177,8 @@ impl Check for C01 {
             case.modes[0].pats.iter().any(|p| rx::has_empty_alternative(&p.rx)),
         );
         st.flag("large_token_type", case.modes[0].pats.iter().any(|p| p.tt > 65_535));
+        st.flag("more_than_64_patterns", case.modes[0].pats.len() > 64);
+        st.flag("more_than_64_classes", scanner.verif_class_count() > 64);
         for input in &case.inputs {
             let text = Text::new(input);
             // reference
@@ -234,8 +247,74 @@ impl Check for C01 {
 pub struct C04;
 pub struct C05;
 
+/// A token, a long run of filler (around the 4096 / 8192 byte marks) and a decider: the lookahead
+/// has to read the whole run.
+fn gen_long_gap_case(d: &mut Dec) -> Case {
+    use crate::rx::LitForm::Verbatim as V;
+    let filler = *d.pick(&[' ', '_', 'é']);
+    let decider = *d.pick(&[';', '(', 'x']);
+    let la = Rx::Concat(vec![
+        Rx::Repeat(Box::new(Rx::Lit(filler, V)), 0, None),
+        Rx::Lit(decider, V),
+    ]);
+    let word = Rx::Repeat(Box::new(Rx::Lit('a', V)), 1, None);
+    let mut pats = vec![
+        PatSpec {
+            rx: word.clone(),
+            tt: 1,
+            la: Some(LaSpec {
+                positive: d.bool(),
+                rx: la,
+            }),
+        },
+        PatSpec {
+            rx: word,
+            tt: 2,
+            la: None,
+        },
+    ];
+    if d.bool() {
+        pats.swap(0, 1);
+    }
+    let k = match d.below(5) {
+        0 => 4090 + d.below(12),
+        1 => 8186 + d.below(12),
+        2 => 2040 + d.below(12),
+        3 => 100 + d.below(9000),
+        _ => 4096 / filler.len_utf8() - 3 + d.below(6),
+    };
+    let mut input = String::from("aa");
+    for _ in 0..k {
+        input.push(filler);
+    }
+    input.push(if d.chance(180) { decider } else { 'q' });
+    input.push_str("aa");
+    Case {
+        modes: vec![ModeSpec {
+            name: "INITIAL".into(),
+            pats,
+            transitions: vec![],
+        }],
+        inputs: vec![input],
+        ..Case::default()
+    }
+}
+
 fn gen_lookahead_case(d: &mut Dec, thorough: bool, min_pats: usize) -> Case {
     let p = GenParams::for_tier(thorough).with_lookaheads(110);
+    if d.chance(1) {
+        return gen_long_gap_case(d);
+    }
+    if d.chance(p.large_per_256) {
+        let mode = gen::gen_large_mode(d, &p.clone().with_lookaheads(90), "INITIAL");
+        let mut case = Case {
+            modes: vec![mode],
+            ..Case::default()
+        };
+        let model = case.model();
+        case.inputs.push(gen::gen_long_input(d, &model, 30, 200));
+        return case;
+    }
     let mut mode = gen::gen_mode(d, &p, "INITIAL");
     while mode.pats.len() < min_pats {
         let extra = gen::gen_mode(d, &p, "X");
@@ -410,6 +489,8 @@ fn check_lookahead(case: &Case, strict_choice: bool) -> CheckResult {
         }
     };
     st.flag("nonzero_start_offset", start > 0);
+    st.flag("more_than_64_patterns", case.modes[0].pats.len() > 64);
+    st.flag("input_longer_than_4096_bytes", case.input().len() > 4096);
     st.flag("offset_by_set_offset", case.offset_after.is_some() && case.start_offset.is_some());
     if start > 0 {
         st.nontrivial = !strict_choice;
@@ -582,13 +663,22 @@ impl Check for C07 {
         let p = GenParams::for_tier(thorough)
             .with_lookaheads(48)
             .with_modes(4);
-        let modes = gen::gen_modes(d, &p);
+        let mut modes = gen::gen_modes(d, &p);
+        let large = d.chance(p.large_per_256);
+        if large {
+            let mi = d.below(modes.len());
+            modes[mi] = gen::gen_large_mode(d, &p, gen::MODE_NAMES[mi]);
+            gen::add_many_transitions(d, &mut modes, mi);
+        }
         let mut case = Case {
             modes,
             ..Case::default()
         };
         let model = case.model();
         let mut input = String::new();
+        if large {
+            input = gen::gen_long_input(d, &model, 60, 400);
+        }
         let pieces = 1 + d.below(5);
         for _ in 0..pieces {
             if d.chance(150) {
@@ -599,7 +689,7 @@ impl Check for C07 {
                 }
             }
         }
-        if input.chars().count() > p.max_input_chars {
+        if !large && input.chars().count() > p.max_input_chars {
             input = input.chars().take(p.max_input_chars).collect();
         }
         case.inputs.push(input);
@@ -615,7 +705,7 @@ impl Check for C07 {
         for _ in 0..nops {
             let op = match d.weighted(&[6, 3, 2, 3, 1, 2]) {
                 0 => Op::Next,
-                1 => Op::PeekN { n: d.below(5) },
+                1 => Op::PeekN { n: gen::gen_peek_n_opt(d, 5, true) },
                 2 => Op::SetMode {
                     m: d.below(case.modes.len()),
                 },
